@@ -17,7 +17,11 @@ def one(sid, tier, jobs):
     meta = json.load(open(os.path.join(d, 'meta.json')))
     caught = []
     lines = []
-    for chk in meta['checks_tried']:
+    order = meta['checks_tried']
+    if FIRST_ONLY:
+        # the checks that caught it last time first; stop at the first one that reports it now
+        order = [c for c in order if c in meta.get('caught_by', [])] + [c for c in order if c not in meta.get('caught_by', [])]
+    for chk in order:
         env = dict(os.environ, VERIF_JOBS=str(jobs), SHOW='3')
         r = subprocess.run([os.path.join(HERE, 'tools', 'try_mutant.sh'), os.path.join(d, 'patch.diff'), tier, chk],
                            capture_output=True, text=True, errors='replace', env=env)
@@ -25,6 +29,9 @@ def one(sid, tier, jobs):
         lines.append('%s %s' % (sid, first))
         if 'rc=1' in first:
             caught.append(chk)
+            if FIRST_ONLY:
+                meta['not_rerun'] = [c for c in order if c != chk and c not in caught]
+                break
             key = [ln.strip() for ln in r.stdout.split('\n') if ln.strip().startswith('key=')]
             if key:
                 meta.setdefault('first_violation_key', {})[chk] = key[0][:160]
@@ -40,8 +47,14 @@ def one(sid, tier, jobs):
     return lines, sid, caught, meta['checks_tried']
 
 
+FIRST_ONLY = False
+
+
 def main():
+    global FIRST_ONLY
     ap = argparse.ArgumentParser()
+    ap.add_argument('--first-only', action='store_true')
+    ap.add_argument('--skip', help='file with ids (one per line) that need not be run again')
     ap.add_argument('--only', nargs='*')
     ap.add_argument('--tier', default='quick')
     ap.add_argument('-P', type=int, default=3)
@@ -51,6 +64,10 @@ def main():
         ids = [i for i in ids if i in a.only]
     # changes that the fix commits made harmless (meta.json status 'obsolete') are kept for the record only
     ids = [i for i in ids if json.load(open(os.path.join(HERE, 'seeded', i, 'meta.json'))).get('status') != 'obsolete']
+    FIRST_ONLY = a.first_only
+    if a.skip:
+        done = set(open(a.skip).read().split())
+        ids = [i for i in ids if i not in done]
     jobs = max(2, 16 // a.P)
     with concurrent.futures.ThreadPoolExecutor(a.P) as ex:
         for lines, sid, caught, tried in ex.map(lambda s: one(s, a.tier, jobs), ids):
